@@ -415,7 +415,18 @@ def run_impl0(case):
                 return [-2, EXC.get(type(e).__name__, 0)]
             return [0, [[a.name, a.options.get('spec'), a.options.get('type'), a.options.get('delim'), a.options.get('subtype'),
                          int(bool(a.options.get('expanded', False)))] for a in args]]
-        tex.input(toks)
+        if case.get('src') is not None:
+            # source-text mode: the real tokenizer must give exactly the case's tokens (C01 x C05 bridge), then the reader runs
+            # on the characters
+            from plasTeX.TeX import TeX as _TeX
+            probe = _TeX(env.doc)
+            probe.input(case['src'])
+            got = [env.canon_tok(t) for t in probe.itertokens()]
+            if got != case['toks']:
+                return ['tokenize-mismatch', got]
+            tex.input(case['src'])
+        else:
+            tex.input(toks)
         op = case.get('op')
         try:
             if kind == 'num':
@@ -781,6 +792,8 @@ def describe(case):
     k = case['kind']
     if k == 'sig':
         return 'args = %r' % case['sig']
+    if case.get('src') is not None:
+        return 'read%s on source text %r' % (case.get('op', '').capitalize(), case['src'])
     head = {'num': 'read%s' % case.get('op', '').capitalize(), 'delim': 'read-%s' % case.get('op'), 'arg': 'readArgumentAndSource%r' % (
         {x: y for x, y in case.get('arg', {}).items() if y is not None},), 'parse': 'args=%r call' % case.get('sig')}[k]
     return '%s on tokens %r' % (head, show(case.get('toks', [])))
@@ -1654,6 +1667,26 @@ def streams(rng, tier, boost):
         fo = rng.choice([chs('rest'), chs(' rest'), chs('x'), [list(RELAX)] + chs('y'), chs('{z}'), []])
         out.append(('typed-casts', dict(kind='arg', arg=a, toks=chs(o) + body + chs(c) + fo, nt=True,
                                         tags=['cast:' + ty, 'spec:' + str(spec)], expect=dict(value=val, rest=fo))))
+    # 7c. source-text mode: the same literals as character strings (blank runs of random length, leading blanks) through the real
+    #     tokenizer; the Model gets the tokens the lexical rules prescribe (Properties: C05_source_int_value / _dimen_value)
+    made = 0
+    for _ in range((3000 if quick else 30000) * boost):
+        if made >= (300 if quick else 3000) * boost:
+            break
+        c = rng.choice([int_case, dimen_case, glue_case])(rng)
+        toks = c['toks']
+        if not toks or toks[0] == ['c', 10, 32] or any(t[0] != 'c' or t[1] not in (1, 2, 10, 11, 12) for t in toks):
+            continue
+        if any(toks[i] == ['c', 10, 32] and toks[i + 1] == ['c', 10, 32] for i in range(len(toks) - 1)):
+            continue
+        if any(chr(t[2]) in '%\\#&$^_~' for t in toks):
+            continue
+        src = ' ' * rng.choice([0, 0, 1, 3]) + ''.join(' ' * rng.choice([1, 1, 2, 3]) if t[1] == 10 else chr(t[2]) for t in toks)
+        if src.endswith(' ') and toks[-1] != ['c', 10, 32]:
+            continue
+        c = dict(c, src=src, tags=list(c.get('tags', [])) + ['source-text'])
+        out.append(('source', c))
+        made += 1
     # 8. enable level: typed arguments from several start levels, incl. type any / Tok / XTok / Args at end of input
     for _ in range((400 if quick else 3000) * boost):
         ty = rng.choice(['any', 'any', 'Tok', 'XTok', 'Args', 'Number', 'Dimen', 'Glue', 'MuDimen', 'MuGlue', 'str', None, 'cs', 'int', 'list'])
